@@ -48,6 +48,7 @@ def main():
     ck.e2('ed-transpose', h_ed.make_rel(dict(edb, law='transpose', taus=[1] if quick else [0, 1, 2])))
     ck.e2('ed-refine', h_ed.make_rel(dict(edb, law='refine', taus=[2], tau2=1)))
     ck.e2('ed-partition', h_ed.make_rel(dict(edb, law='partition', taus=[1] if quick else [1, 2])))
+    ck.e2('ed-refine-two-letters', h_ed.make_rel(dict(edb, law='refine', lens=[3, 4], alphabet=2, taus=[2], tau2=1)))
     ck.e2('ed-transpose-1x2', h_ed.make_rel(dict(edb, law='transpose', nl=1, nr=2, lens_l=[2], lens_r=[1], taus=[1])))
     ck.finish()
 
